@@ -112,6 +112,15 @@ T = {
  "C18c": ("the streamer leaves right after its trigger wait when is_running is 0, without consuming the trigger stop used to wake it",
           "trigger enabled, stop while the streamer waits, restart: a frame is delivered before any trigger. SUPERSEDED: triaging this seed showed the same hole on the unchanged tree (stop while the streamer is mid-frame); it was repaired in /repo (fix f580176: start clears the trigger) and with that repair this change no longer breaks the property - its demonstration passes on the repaired tree"),
 }
+# rounds 4 and 5: the tables of DESIGN.md section 9 ( | Seed | Change | Needs to manifest | ... ); round 6: tools/seed_round6.json
+for line in open(os.path.join(V, "DESIGN.md"), errors="replace"):
+    cells = [c.strip() for c in line.split("|")]
+    if len(cells) >= 5 and re.fullmatch(r"C\d\d[a-z]", cells[1] or "") and cells[1] not in T:
+        T[cells[1]] = (cells[2].replace("`", ""), cells[3].replace("`", ""))
+r6 = os.path.join(V, "tools", "seed_round6.json")
+if os.path.exists(r6):
+    for k, v in json.load(open(r6)).items():
+        T[k] = tuple(v)
 mx = {}
 mp = os.path.join(V, "seeded", "matrix.json")
 if os.path.exists(mp):
